@@ -1601,3 +1601,247 @@ Module NVB_C20.
   Example no_directivity_applies : srcD = omni srcD.
   Proof. exact (C20_no_directivity srcD eq_refl). Qed.
 End NVB_C20.
+
+From SV Require Model.Exchange Model.Scene Model.Tiling Model.Visibility Model.Full Spec.VisibilitySpec Proofs.OrderField
+  Proofs.TilingLists Proofs.TilingProofs Proofs.VisibilitySym Proofs.PipRectSurface Proofs.FullProofs Proofs.FullVisibility
+  Proofs.FullShoebox Instances.ShoeboxR Properties.C07.
+
+(** ** C07_room_coplanar_hidden / C07_room_behind_hidden.
+    First, for EVERY room with axis-aligned walls ([axis_walls_by]) and its list of patch rectangles:
+    two patches of the same wall satisfy every hypothesis of C07_room_coplanar_hidden, and two patches
+    of parallel walls have the side / normal-component values that C07_room_behind_hidden asks about.
+    Then two concrete rooms over the reals: the shoebox of ShoeboxR (coplanar), and the same box
+    with OUTWARD normals, "a room seen from behind" (the patches of opposite walls are behind each other). *)
+Module NVB_C07Room.
+  Import Model.Exchange Model.Scene Model.Tiling Model.Visibility Model.Full Spec.VisibilitySpec Proofs.OrderField
+    Proofs.TilingLists Proofs.TilingProofs Proofs.PipRectSurface Proofs.FullProofs Proofs.FullVisibility Proofs.FullShoebox
+    Properties.C07.
+
+  Section Generic.
+    Context {T : Type} {O : Ops T} {RL : RingLaws T} {OL : OrderLaws T} {FL : FieldLaws T}
+            {FlL : FloorLaws T} {SL : SqrtLaws T}.
+    Add Ring TRingNVB : (@ring_th T O RL).
+    Local Open Scope T_scope.
+    Variable rm : @room T.
+    Variables (fw : nat -> nat) (cw : nat -> T) (uw : nat -> bool).
+    Hypothesis Hby : axis_walls_by rm fw cw uw.
+    Variable rs : list (@rect T).
+    Hypothesis Hrs : rects_of (rm_patch_surfs rm) rs.
+    Hypothesis Hcells : forall k, (k < rm_np rm)%nat ->
+      let w := wall (room_scene rm) k in
+      is_cell (nth w (rm_walls rm) dquad) (rm_patch_size rm) (fw w) (uw w) (cw w) (nth k rs drect).
+    Local Notation p := (rm_patch_size rm).
+    Local Notation wq w := (nth w (rm_walls rm) dquad).
+
+    (** patch k is a cell of its wall, its centroid the centre of that cell *)
+    Lemma patch_cell_centre k : (k < rm_np rm)%nat ->
+      let w := wall (room_scene rm) k in
+      wall_ok (wq w) p (fw w) (cw w) /\
+      exists i j, nth k rs drect = cell_rect (wq w) p (fw w) (uw w) (cw w) i j /\
+                  nthv (rm_centers rm) k = cell_centre (wq w) p (fw w) (cw w) (uw w) i j.
+    Proof.
+      intros Hk. cbv zeta. split; [exact (proj1 (Hby _ (room_wall_lt rm k Hk)))|].
+      destruct (Hcells k Hk) as (i & j & _ & _ & E). exists i, j. split; [exact E|].
+      rewrite (room_center_is_rect_centroid rm rs Hrs k Hk), E. reflexivity.
+    Qed.
+
+    Variable m : T.
+    Hypothesis Hm : m + m < p.
+
+    Lemma cell_rect_margin q f c up i j : wall_ok q p f c -> cell_margin m (cell_rect q p f up c i j).
+    Proof.
+      intros Hok. split; cbn [cell_rect r_ua r_ub r_va r_vb]; rewrite gline_step.
+      - pose proof (wall_real_size_pos q p f c Hok (px f) (or_introl eq_refl)) as Hr.
+        rewrite (tabs_pos _ (tlt_le _ _ Hr)).
+        exact (tlt_le_trans _ _ _ Hm (real_size_ge_p q p f c Hok (px f) (or_introl eq_refl))).
+      - pose proof (wall_real_size_pos q p f c Hok (py f) (or_intror eq_refl)) as Hr.
+        rewrite (tabs_pos _ (tlt_le _ _ Hr)).
+        exact (tlt_le_trans _ _ _ Hm (real_size_ge_p q p f c Hok (py f) (or_intror eq_refl))).
+    Qed.
+
+    (** SAME WALL: the hypotheses of C07_room_coplanar_hidden *)
+    Lemma same_wall_hyps i j : (i < rm_np rm)%nat -> (j < rm_np rm)%nat ->
+      wall (room_scene rm) i = wall (room_scene rm) j ->
+      cell_margin m (nth i rs drect) /\
+      on_plane (rect_surface (nth i rs drect)) (nthv (rm_centers rm) j) /\
+      off_bands m (nth i rs drect) (nthv (rm_centers rm) j).
+    Proof.
+      intros Hi Hj E.
+      destruct (patch_cell_centre i Hi) as (Hok & ii & ji & Ei & _).
+      destruct (patch_cell_centre j Hj) as (_ & ij & jj & _ & Cj). cbv zeta in *. rewrite <- E in Cj.
+      rewrite Ei, Cj. split; [exact (cell_rect_margin _ _ _ _ _ _ Hok)|].
+      exact (cell_centre_pt_on _ _ _ _ _ Hok m ij jj ii ji _ Hm).
+    Qed.
+
+    Lemma vdot_axis_normal ax up (v : @vec T) : vdot (axis_normal ax up) v = sgn up * ccoord ax v.
+    Proof. destruct v as [[v1 v2] v3]. destruct ax; unfold axis_normal, emb, vdot, mkv, ccoord, vx, vy, vz; cbn [fst snd]; ring. Qed.
+    Lemma ccoord_sub ax (a b : @vec T) : ccoord ax (vsub a b) = ccoord ax a - ccoord ax b.
+    Proof. destruct a as [[a1 a2] a3], b as [[b1 b2] b3]. destruct ax; reflexivity. Qed.
+
+    (** PARALLEL WALLS (same flat axis): side of patch i's plane on which centroid j lies, and the
+        component of (c_j - c_i) along patch i's normal *)
+    Lemma parallel_wall_values i j : (i < rm_np rm)%nat -> (j < rm_np rm)%nat ->
+      let wi := wall (room_scene rm) i in
+      let wj := wall (room_scene rm) j in
+      fw wi = fw wj ->
+      cell_margin m (nth i rs drect) /\
+      side_of (rect_surface (nth i rs drect)) (nthv (rm_centers rm) j) = sgn (uw wi) * (cw wj - cw wi) /\
+      vdot (s_nrm (rect_surface (nth i rs drect))) (vsub (nthv (rm_centers rm) j) (nthv (rm_centers rm) i))
+        = sgn (uw wi) * (cw wj - cw wi).
+    Proof.
+      intros Hi Hj. cbv zeta. intros Ef.
+      destruct (patch_cell_centre i Hi) as (Hoki & ii & ji & Ei & Ci).
+      destruct (patch_cell_centre j Hj) as (Hokj & ij & jj & Ej & Cj). cbv zeta in *.
+      split; [rewrite Ei; exact (cell_rect_margin _ _ _ _ _ _ Hoki)|].
+      assert (Ki : ccoord (ax_of (fw (wall (room_scene rm) i))) (nthv (rm_centers rm) i) = cw (wall (room_scene rm) i))
+        by (rewrite Ci; apply cell_centre_c).
+      assert (Kj : ccoord (ax_of (fw (wall (room_scene rm) i))) (nthv (rm_centers rm) j) = cw (wall (room_scene rm) j))
+        by (rewrite Ef, Cj; apply cell_centre_c).
+      split.
+      - rewrite side_of_rect, Ei. cbn [cell_rect r_up r_axis r_c]. now rewrite Kj.
+      - rewrite Ei. unfold rect_surface, s_nrm, rect_nrm. cbn [snd cell_rect r_up r_axis].
+        rewrite vdot_axis_normal, ccoord_sub, Ki, Kj. reflexivity.
+    Qed.
+
+    (** where the blocks of the walls start: patch [prefix_sum counts w + j] lies on wall w *)
+    Lemma block_index w j : (w < length (rm_walls rm))%nat ->
+      (j < length (create_patches (wq w) p))%nat ->
+      let k := (prefix_sum (map (fun q => total_number_of_patches q p) (rm_walls rm)) w + j)%nat in
+      (k < rm_np rm)%nat /\ wall (room_scene rm) k = w.
+    Proof.
+      intros Hw Hj. cbv zeta. set (counts := map (fun q => total_number_of_patches q p) (rm_walls rm)).
+      assert (Hc : nth w counts 0%nat = length (create_patches (wq w) p)).
+      { subst counts. rewrite nth_indep with (d' := total_number_of_patches dquad p) by now rewrite map_length.
+        rewrite (map_nth (fun q => total_number_of_patches q p)). apply total_eq_length. }
+      split.
+      - unfold rm_np, rm_patch_pts, rm_processed. rewrite map_length, process_points_length. fold counts.
+        assert (Hlw : (w < length counts)%nat) by (subst counts; now rewrite map_length).
+        pose proof (prefix_sum_S counts w Hlw) as H1. pose proof (prefix_sum_le_total counts (S w)) as H2. lia.
+      - unfold wall, room_scene. cbn [s_wall]. unfold nthn, rm_processed.
+        exact (proj1 (proj2 (process_block (rm_walls rm) (rm_normals rm) p w j dquad vzero 0%nat Hw Hj))).
+    Qed.
+  End Generic.
+End NVB_C07Room.
+
+Module NVB_C07RoomR.
+  Import Model.Exchange Model.Scene Model.Tiling Model.Visibility Model.Full Spec.VisibilitySpec Proofs.OrderField
+    Proofs.TilingLists Proofs.TilingProofs Proofs.PipRectSurface Proofs.FullProofs Proofs.FullVisibility Proofs.FullShoebox
+    Instances.ShoeboxR Properties.C07 RAll NVB_C07Room.
+  Local Open Scope R_scope.
+
+  Ltac rlt := apply (proj2 (tlt_iff _ _)); cbv [tzero tone tsub tadd tmul topp RFOps rm_patch_size rm_eps rm_eta boxR]; unfold e6; try lra.
+  Ltac rle := apply (proj2 (tle_iff _ _)); cbv [tzero tone tsub tadd tmul topp RFOps rm_patch_size rm_eps rm_eta boxR]; unfold e6; try lra.
+
+  (** the wall y = 0 of the box: [0,4] x [0,2], patch size 1, has at least two patches *)
+  Definition wall0 : @quad R := sb_quad 0 4 0 3 0 2 1 0.
+  Definition wall1 : @quad R := sb_quad 0 4 0 3 0 2 1 3.
+  Lemma wall_ok_y (c : R) : wall_ok (sb_quad 0 4 0 3 0 2 1 c) 1 1 c.
+  Proof. apply (sb_wall_ok 0 4 0 3 0 2); try rlt; try rle; lia. Qed.
+  Lemma wall0_two_patches : (2 <= length (create_patches wall0 1%R))%nat.
+  Proof.
+    pose proof (wall_ok_y 0) as Hok. fold wall0 in Hok.
+    destruct (stmt_count wall0 1 1 0 Hok) as (_ & _ & _ & Ny & -> & _).
+    destruct (stmt_floor wall0 1 1 0 (px 1) Hok (or_introl eq_refl)) as [_ Hhi].
+    assert (Hs : size wall0 (px 1) = 4 - 0).
+    { unfold size, wall0. change (px 1) with 0%nat.
+      rewrite (sb_col_max 0 4 0 3 0 2), (sb_col_min 0 4 0 3 0 2); try lia; try rlt. reflexivity. }
+    rewrite Hs in Hhi. apply (proj1 (tlt_iff _ _)) in Hhi. cbn [tofnat tmul RFOps] in Hhi.
+    assert (Hn : (2 <= patch_num wall0 1%R (px 1))%nat).
+    { destruct (patch_num wall0 1%R (px 1)) as [|[|n]]; [exfalso| exfalso|lia].
+      - simpl in Hhi. lra.
+      - simpl in Hhi. lra. }
+    exact (Nat.mul_le_mono 2 _ 1 _ Hn Ny).
+  Qed.
+  Lemma wall1_one_patch : (1 <= length (create_patches wall1 1%R))%nat.
+  Proof.
+    pose proof (wall_ok_y 3) as Hok. fold wall1 in Hok.
+    destruct (stmt_count wall1 1 1 3 Hok) as (_ & _ & Nx & Ny & -> & _).
+    exact (Nat.mul_le_mono 1 _ 1 _ Nx Ny).
+  Qed.
+
+  Lemma box_tol : (0 <= rm_eps boxR)%T /\ (rm_eps boxR < 1)%T /\ (0 < rm_eta boxR)%T /\ (rm_eta boxR <= e6 + e6)%T /\
+                  (e6 + e6 < rm_patch_size boxR)%T.
+  Proof.
+    destruct boxR_tolerances as (H1 & H2 & H3 & _ & H5). split; [exact H1|]. split; [exact H2|]. split; [exact H3|].
+    split; [|exact H5]. rle.
+  Qed.
+
+  (** *** C07_room_coplanar_hidden: patches 0 and 1 of the shoebox room both lie on wall 0 *)
+  Example room_coplanar_hidden_applies :
+    wall (room_scene boxR) 0 = 0%nat /\ wall (room_scene boxR) 1 = 0%nat /\ vis_sym (room_scene boxR) 0 1 = false.
+  Proof.
+    destruct boxR_is_shoebox as (Hw & Hn & _ & Hx & Hy & Hz & Hp & Hpx & Hpy & Hpz).
+    pose proof (sb_axis_walls_by 0 4 0 3 0 2 boxR Hw Hn Hx Hy Hz Hp Hpx Hpy Hpz) as Hby.
+    destruct (shoebox_cells boxR 0 4 0 3 0 2 boxR_is_shoebox) as (rs & Hrs & Hcells).
+    destruct box_tol as (T1 & T2 & T3 & T4 & T5).
+    assert (H0 : (0 < length (create_patches (nth 0 (rm_walls boxR) dquad) (rm_patch_size boxR)))%nat)
+      by (pose proof wall0_two_patches; exact (Nat.lt_le_trans _ _ _ (Nat.lt_0_succ 1) H)).
+    assert (H1 : (1 < length (create_patches (nth 0 (rm_walls boxR) dquad) (rm_patch_size boxR)))%nat)
+      by exact wall0_two_patches.
+    destruct (block_index boxR 0 0 ltac:(simpl; lia) H0) as [K0 W0].
+    destruct (block_index boxR 0 1 ltac:(simpl; lia) H1) as [K1 W1].
+    rewrite prefix_sum_0 in K0, W0, K1, W1. cbn [Nat.add] in K0, W0, K1, W1.
+    split; [exact W0|]. split; [exact W1|].
+    destruct (same_wall_hyps boxR sb_f (sb_c 0 4 0 3 0 2) sb_s Hby rs Hrs Hcells e6 T5 0 1 K0 K1
+                (eq_trans W0 (eq_sym W1))) as (M & On & Off).
+    exact (C07_room_coplanar_hidden boxR rs e6 0 1 Hrs T1 T2 T3 T4 (Nat.lt_0_succ 0) K1 M On Off).
+  Qed.
+
+  (** *** C07_room_behind_hidden: the box with OUTWARD normals (a room seen from behind) *)
+  Definition out_normals : list (@vec R) :=
+    map (fun w => axis_normal (ax_of (sb_f w)) (negb (sb_s w))) (seq 0 6).
+  Definition boxOut : @room R :=
+    mkRoom (sb_walls 0 4 0 3 0 2) out_normals sb_ups 1 [] [] [] [] [] 0 (1 / 10000000000) e6 e6 e6 0 e6 e6 e6.
+  Ltac rlt' := apply (proj2 (tlt_iff _ _)); cbv [tzero tone tsub tadd tmul topp RFOps rm_patch_size rm_eps rm_eta boxOut]; unfold e6; try lra.
+  Ltac rle' := apply (proj2 (tle_iff _ _)); cbv [tzero tone tsub tadd tmul topp RFOps rm_patch_size rm_eps rm_eta boxOut]; unfold e6; try lra.
+  Lemma boxOut_axis_walls : axis_walls_by boxOut sb_f (sb_c 0 4 0 3 0 2) (fun w => negb (sb_s w)).
+  Proof.
+    intros w Hw. change (length (rm_walls boxOut)) with 6%nat in Hw.
+    change (rm_walls boxOut) with (sb_walls 0 4 0 3 0 2). rewrite (sb_walls_nth 0 4 0 3 0 2 w Hw).
+    split.
+    - apply (sb_wall_ok 0 4 0 3 0 2); try apply sb_f_lt; try rlt'; try rle'.
+    - change (rm_normals boxOut) with out_normals.
+      destruct (lt6_cases w Hw) as [->|[->|[->|[->|[->| ->]]]]]; reflexivity.
+  Qed.
+  Lemma outwards_not_shoebox : rm_normals boxOut <> rm_normals boxR.
+  Proof.
+    intros H. apply (f_equal (fun l => vy (nthv l 0))) in H.
+    cbv [rm_normals boxOut boxR out_normals map seq nthv nth sb_f sb_s Nat.even negb ax_of axis_normal emb sgn
+         sb_normals mkv vy fst snd topp tone tzero RFOps] in H. lra.
+  Qed.
+
+  Example room_behind_hidden_applies :
+    exists j, (0 < j)%nat /\ (j < rm_np boxOut)%nat /\
+      wall (room_scene boxOut) 0 = 0%nat /\ wall (room_scene boxOut) j = 1%nat /\
+      vis_sym (room_scene boxOut) 0 j = false.
+  Proof.
+    pose proof boxOut_axis_walls as Hby.
+    destruct (room_cells boxOut _ _ _ Hby) as (rs & Hrs & Hcells).
+    assert (T1 : (0 <= rm_eps boxOut)%T) by rle'.
+    assert (T2 : (rm_eps boxOut < 1)%T) by rlt'.
+    assert (T3 : (0 < rm_eta boxOut)%T) by rlt'.
+    assert (T4 : (rm_eta boxOut <= e6 + e6)%T) by rle'.
+    assert (T5 : (e6 + e6 < rm_patch_size boxOut)%T) by rlt'.
+    assert (H0 : (0 < length (create_patches (nth 0 (rm_walls boxOut) dquad) (rm_patch_size boxOut)))%nat)
+      by (pose proof wall0_two_patches; exact (Nat.lt_le_trans _ _ _ (Nat.lt_0_succ 1) H)).
+    assert (H1 : (0 < length (create_patches (nth 1 (rm_walls boxOut) dquad) (rm_patch_size boxOut)))%nat)
+      by exact wall1_one_patch.
+    destruct (block_index boxOut 0 0 ltac:(simpl; lia) H0) as [K0 W0].
+    destruct (block_index boxOut 1 0 ltac:(simpl; lia) H1) as [K1 W1].
+    rewrite prefix_sum_0 in K0, W0. cbn [Nat.add] in K0, W0. rewrite Nat.add_0_r in K1, W1.
+    set (j := prefix_sum (map (fun q => total_number_of_patches q (rm_patch_size boxOut)) (rm_walls boxOut)) 1) in *.
+    assert (Hj : (0 < j)%nat).
+    { destruct j as [|j']; [|lia]. rewrite W0 in W1. discriminate W1. }
+    exists j. split; [exact Hj|]. split; [exact K1|]. split; [exact W0|]. split; [exact W1|].
+    destruct (parallel_wall_values boxOut sb_f (sb_c 0 4 0 3 0 2) (fun w => negb (sb_s w)) Hby rs Hrs Hcells e6 T5 0 j K0 K1)
+      as (M & Sd & Nd).
+    { rewrite W0, W1. reflexivity. }
+    rewrite W0, W1 in Sd, Nd. cbv beta in Sd, Nd.
+    apply (proj1 (C07_room_behind_hidden boxOut rs e6 0 j Hrs T1 T2 T3 T4 Hj K1) M).
+    - rewrite Sd. apply (proj2 (tlt_iff _ _)).
+      cbv [sgn negb sb_s Nat.even sb_c sb_coord sb_f sb_lo sb_hi tmul tsub topp tone tzero tabs RFOps rm_eta boxOut].
+      unfold e6. rewrite Rabs_left; lra.
+    - rewrite Nd. apply (proj2 (tlt_iff _ _)).
+      cbv [sgn negb sb_s Nat.even sb_c sb_coord sb_f sb_lo sb_hi tmul tsub topp tone tzero RFOps]. lra.
+  Qed.
+End NVB_C07RoomR.
